@@ -3,7 +3,7 @@
    attributes of proper scalars, in place and copy-on-write. *)
 From Coq Require Import List ZArith Bool Arith Lia.
 From SC Require Import Base.Res Base.PyList Inst.Heap Inst.ClassTable Inst.Model Inst.Canon
-  Inst.Abs Inst.SpecHelpers Inst.ElemProofs Inst.Framed Inst.RefineProofs Inst.CopyProofs Inst.CopyStore
+  Inst.Abs Inst.SpecHelpers Inst.ElemProofs Inst.Framed Inst.RefineProofs Inst.CopyProofs Inst.ElemRefineDep Inst.CopyStore
   Inst.ElemRefine Inst.ElemRefine2 Inst.ElemRefine3 Inst.ElemRefine4 Inst.ElemRefine5 Inst.ElemRefine6
   Inst.ElemRefine7 Inst.ElemRefine8.
 Import ListNotations.
@@ -26,7 +26,7 @@ Section InplaceFrame.
   Hypothesis Ha : lookup_attr k a = Some sp.
   Hypothesis Hd : NoDup (map fst d).
   Hypothesis Hfz : c_frozen k = false.
-  Hypothesis Hni : no_inval k.
+  Hypothesis Hni : no_dep k a.
   Hypothesis Hcoll : ty_is_collection (a_ty sp) = true.
   Hypothesis Hfld : assoc a d = Some (VRef lc).
   Hypothesis Hlc : nth_error (heap s) lc = Some o.
@@ -467,7 +467,7 @@ Section ChangeThms.
   Hypothesis Hc : lookup_cls ct c = Some k.
   Hypothesis Ha : lookup_attr k a = Some sp.
   Hypothesis Hd : NoDup (map fst d).
-  Hypothesis Hni : no_inval k.
+  Hypothesis Hni : no_dep k a.
   Hypothesis Hfld : assoc a d = Some (VRef lc).
   Hypothesis Hflat : flat_fields (heap s) d.
 
@@ -804,3 +804,30 @@ Section ChangeThms.
     End Copy.
   End SetT.
 End ChangeThms.
+
+(* ------------------------------------------------------------------ *)
+(** * with_<item> in place on a list attribute of scalars, through the frame *)
+
+Theorem with_item_list_inplace_refines2 ct h0 l a c d k sp s lc xs ity :
+  nth_error (heap s) l = Some (OInst c d) -> lookup_cls ct c = Some k -> lookup_attr k a = Some sp ->
+  NoDup (map fst d) -> c_frozen k = false -> no_dep k a ->
+  a_ty sp = TList ity -> a_prepare_item sp = None -> spec_of_ty_strict ity = None -> ty_depth ity < FUEL ->
+  assoc a d = Some (VRef lc) -> nth_error (heap s) lc = Some (OList xs) -> forallb nonref xs = true ->
+  flat_fields (heap s) d -> (forall b w, In (b, w) d -> b <> a -> w <> VRef lc) ->
+  forall idx v ins, vscalar v = true -> (idx = VMissing \/ exists i, idx = VInt i) ->
+  inplace_refines_spec ct h0 s l (HWithItem a) (mkh [v] true true idx ins None None [] None)
+                       (SWithItem a) (mkah [abs0 v] true true (abs0 idx) ins None None [] None).
+Proof.
+  intros Hl Hc Ha Hd Hfz Hni Hty Hprep Hstrict Hdepth Hfld Hlc Hxs Hflat Hshare idx v ins Hv Hidx.
+  unfold inplace_refines_spec.
+  assert (Hcoll : ty_is_collection (a_ty sp) = true) by (now rewrite Hty).
+  apply (ip_whole ct h0 l a c d k sp s lc (OList xs) Hl Hc Ha Hd Hfz Hni Hcoll Hfld Hlc Hxs Hflat Hshare
+           (with_tail ct l a sp (mkh [v] true true idx ins None None [] None))
+           (list_with_pure ct ity xs idx v ins))
+    with (edit := spec_with_item ct h0); try reflexivity.
+  - intros s1 lc1 H1 _. exists s1. split; auto. now apply with_tail_list.
+  - intros o' E. apply (list_with_pure_scalar ct ity xs idx v ins o'); auto. now apply vscalar_nonref.
+  - now apply list_with_pure_spec.
+  - rewrite (run_with_tail ct l a (mkh [v] true true idx ins None None [] None) s eq_refl).
+    rewrite (bind_ok _ _ _ _ _ (fr_spec_for ct l a c d k sp s Hl Hc Ha)). reflexivity.
+Qed.
